@@ -1,6 +1,7 @@
 package main
 
 import (
+	"sort"
 	"fmt"
 	"go/token"
 	"go/types"
@@ -59,6 +60,10 @@ func checkC07(c *Ctx) {
 	// made under that lock (shared with C09 O1); the unsafe lookup key stays private (C09 O4)
 	c.checkDoubleChecked("O7 double-checked", eng)
 	c.checkPrivateKeyBuffer("O7 private-key-buffer")
+
+	// ---- O8 a scope's mutable state is its own
+	c.checkFreshScopeState("O8 fresh-state")
+	c.checkDerivationThroughRegistry("O4 through-registry")
 
 	// ---- O5 ------------------------------------------------------------------------------------------
 	c.checkLockPairing("O5 lock-pairing", []string{""}, eng, 12)
@@ -674,4 +679,199 @@ func (c *Ctx) checkReportBeforeClear(ruleO1, ruleO2 string) {
 	}
 	c.floor(ruleO2, nClear, 2)
 
+}
+
+// checkFreshScopeState: the mutable state of a newly built scope - its metric tables, the slices the
+// cached pass walks, its done channel - is allocated for that scope alone. State taken over from
+// another scope (the closed scope it replaces, the parent) is shared between two objects that guard it
+// with different mutexes and clear it independently: clearing the dropped scope wipes the live one.
+func (c *Ctx) checkFreshScopeState(rule string) {
+	scopeT := c.named("", "scope")
+	if scopeT == nil {
+		c.missing(rule, "tally.scope")
+		return
+	}
+	want := []string{"counters", "countersSlice", "gauges", "gaugesSlice", "histograms", "histogramsSlice", "timers", "done"}
+	n := 0
+	var freshVal func(v ssa.Value, depth int) bool
+	freshVal = func(v ssa.Value, depth int) bool {
+		if depth == 0 {
+			return false
+		}
+		switch x := canon(stripConv(v)).(type) {
+		case *ssa.MakeMap, *ssa.MakeSlice, *ssa.MakeChan:
+			return true
+		case *ssa.Slice:
+			if al, ok := x.X.(*ssa.Alloc); ok {
+				_, isArr := deref(al.Type()).Underlying().(*types.Array)
+				return isArr
+			}
+		case *ssa.Phi:
+			for _, e := range x.Edges {
+				if !freshVal(e, depth-1) {
+					return false
+				}
+			}
+			return len(x.Edges) > 0
+		case *ssa.Call:
+			g := staticCallee(x)
+			if g == nil || !c.inModule(g) || g.Blocks == nil || g.Signature.Results().Len() != 1 {
+				return false
+			}
+			k := 0
+			for _, r := range returnsOf(g) {
+				for _, va := range resultValues(r, 0) {
+					k++
+					if !freshVal(va.Val, depth-1) {
+						return false
+					}
+				}
+			}
+			return k > 0
+		case *ssa.Extract:
+			call, ok := x.Tuple.(*ssa.Call)
+			if !ok {
+				return false
+			}
+			g := staticCallee(call)
+			if g == nil || !c.inModule(g) || g.Blocks == nil {
+				return false
+			}
+			k := 0
+			for _, r := range returnsOf(g) {
+				if x.Index >= len(r.Results) {
+					return false
+				}
+				for _, va := range resultValues(r, x.Index) {
+					k++
+					if !freshVal(va.Val, depth-1) {
+						return false
+					}
+				}
+			}
+			return k > 0
+		}
+		return false
+	}
+	for _, fn := range c.funcsOfPkg("") {
+		// scope literals built in this function
+		var lits []*ssa.Alloc
+		instrsOf(fn, func(in ssa.Instruction) {
+			if al, ok := in.(*ssa.Alloc); ok && al.Heap && deref(al.Type()) == types.Type(scopeT) {
+				lits = append(lits, al)
+			}
+		})
+		for _, lit := range lits {
+			stores := map[string]*ssa.Store{}
+			if lit.Referrers() == nil {
+				continue
+			}
+			for _, r := range *lit.Referrers() {
+				fa, ok := r.(*ssa.FieldAddr)
+				if !ok || fa.Referrers() == nil {
+					continue
+				}
+				f := structFieldOf(fa.X.Type(), fa.Field)
+				for _, u := range *fa.Referrers() {
+					if st, isSt := u.(*ssa.Store); isSt && st.Addr == ssa.Value(fa) && f != nil {
+						stores[f.Name()] = st
+					}
+				}
+			}
+			if stores["counters"] == nil && stores["gauges"] == nil {
+				continue // not a functional scope (e.g. the no-op scope is built elsewhere)
+			}
+			n++
+			key := fmt.Sprintf("%s:scope#%d", c.fnKey(fn), n)
+			c.sawFunc(c.fnKey(fn))
+			var bad []string
+			var at ssa.Instruction = lit
+			for _, f := range want {
+				st := stores[f]
+				if st == nil {
+					continue // left nil: lazily nothing to share
+				}
+				if !freshVal(st.Val, 3) {
+					bad = append(bad, f)
+					at = st
+				}
+			}
+			sort.Strings(bad)
+			c.check(len(bad) == 0, rule, key, at.Pos(), "the new scope's metric tables, slices and done channel are allocated for it alone",
+				fmt.Sprintf("field(s) %v of a newly built scope are not freshly allocated (they are taken from another scope or a shared value): two scopes then share one table under different locks, and clearing or closing one of them wipes, races with or double-closes the other", bad), c.describe(at))
+		}
+	}
+	c.floor(rule, n, 2)
+}
+
+// checkDerivationThroughRegistry: Tagged and SubScope hand out only what the registry's Subscope
+// returns. Subscope is where a closed root or parent yields the inert scope and where identities are
+// shared; a shortcut around it (`if len(tags) == 0 { return s }`) hands out a closed scope after Close.
+func (c *Ctx) checkDerivationThroughRegistry(rule string) {
+	sub := c.fn("", "scopeRegistry", "Subscope")
+	if sub == nil {
+		c.missing(rule, "tally.scopeRegistry.Subscope")
+		return
+	}
+	var viaRegistry func(v ssa.Value, depth int) bool
+	viaRegistry = func(v ssa.Value, depth int) bool {
+		if depth == 0 {
+			return false
+		}
+		switch x := canon(stripConv(v)).(type) {
+		case *ssa.Phi:
+			for _, e := range x.Edges {
+				if !viaRegistry(e, depth-1) {
+					return false
+				}
+			}
+			return len(x.Edges) > 0
+		case *ssa.Call:
+			g := staticCallee(x)
+			if g == sub {
+				return true
+			}
+			if g == nil || !c.inModule(g) || g.Blocks == nil || g.Signature.Results().Len() != 1 {
+				return false
+			}
+			k := 0
+			for _, r := range returnsOf(g) {
+				for _, va := range resultValues(r, 0) {
+					k++
+					if !viaRegistry(va.Val, depth-1) {
+						return false
+					}
+				}
+			}
+			return k > 0
+		}
+		return false
+	}
+	n := 0
+	for _, m := range []string{"Tagged", "SubScope"} {
+		fn := c.fn("", "scope", m)
+		if fn == nil {
+			c.missing(rule, "tally.scope."+m)
+			continue
+		}
+		n++
+		key := c.fnKey(fn)
+		c.sawFunc(key)
+		var bad ssa.Instruction
+		for _, r := range returnsOf(fn) {
+			for _, va := range resultValues(r, 0) {
+				if !viaRegistry(va.Val, 3) {
+					bad = va.At
+				}
+			}
+		}
+		c.check(bad == nil, rule, key, fn.Pos(), "every scope returned is what scopeRegistry.Subscope returned",
+			m+" can return a scope that did not come from scopeRegistry.Subscope (a shortcut around the registry): after the root or this scope was closed the caller still gets a functional-looking scope instead of the inert one, and what is recorded on it reaches a closed reporter or is never delivered", func() string {
+				if bad != nil {
+					return c.describe(bad)
+				}
+				return ""
+			}())
+	}
+	c.floor(rule, n, 2)
 }
